@@ -236,6 +236,7 @@ class Cell:
                    None if self.but is None else list(self.but))
         new.lat_info = self.lat_info
         new.extra_opts = list(getattr(self, 'extra_opts', None) or [])
+        new.u_negative = getattr(self, 'u_negative', False)
         return new
 
 
@@ -391,7 +392,8 @@ def option_atoms(deck, cel, only=None):
         for parts, val in cel.imp.items():
             out.append(f'imp:{parts}={val}')
     if cel.u is not None and want('u'):
-        out.append(f'u={cel.u}')
+        sign = '-' if getattr(cel, 'u_negative', False) else ''
+        out.append(f'u={sign}{cel.u}')
     if cel.lat is not None and want('lat'):
         out.append(f'lat={cel.lat}')
     if cel.fill is not None and want('fill'):
